@@ -8,7 +8,7 @@
 (***************************************************************************)
 EXTENDS MultiSurvey
 
-CONSTANTS MaxObs, MaxSrc, Times, Export
+CONSTANTS MaxObs, MaxSrc, Times, Export, Deviations
 
 VARIABLES srcs, islist, krank, rows, labels, offc, pc
 vars == <<srcs, islist, krank, rows, labels, offc, pc>>
@@ -56,6 +56,17 @@ Label ==
   /\ labels' = [r \in DOMAIN rows |-> srcs[rows[r].src].key]
   /\ pc' = "design" /\ UNCHANGED <<srcs, islist, krank, rows, offc>>
 
+\* named deviation (disabled unless listed in Deviations): labels stay in concatenation order
+KF_LabelInConcatOrder ==
+  /\ pc = "label" /\ "KF_IdsNotPermuted" \in Deviations
+  /\ labels' = [r \in DOMAIN rows |-> srcs[ConcatLabels(srcs, 1)[r]].key]
+  /\ pc' = "design_dev" /\ UNCHANGED <<srcs, islist, krank, rows, offc>>
+DesignDev ==
+  /\ pc = "design_dev"
+  /\ offc' = [j \in 1..(Len(srcs) - 1) |->
+                 [r \in DOMAIN rows |-> IF krank[ConcatLabels(srcs, 1)[r]] = j + 1 THEN 1 ELSE 0]]
+  /\ pc' = "done" /\ UNCHANGED <<srcs, islist, krank, rows, labels>>
+
 \* np.unique(ids) sorts the labels; the smallest is the reference, the j-th next owns column j
 Design ==
   /\ pc = "design"
@@ -68,10 +79,14 @@ Done ==
   /\ (Export => PrintT(<<"CASE", [srcs |-> srcs, islist |-> islist, krank |-> krank]>>))
   /\ UNCHANGED <<srcs, islist, krank, rows, labels, offc>>
 
-Next == Concat \/ SortRows \/ Label \/ Design \/ Done
+Next == Concat \/ SortRows \/ Label \/ KF_LabelInConcatOrder \/ Design \/ DesignDev \/ Done
 Spec == Init /\ [][Next]_vars
 
 Plain(rs) == [r \in DOMAIN rs |-> [t |-> rs[r].t, rvid |-> rs[r].rvid, errid |-> rs[r].errid]]
 AlgSatisfiesProperty ==
   pc = "done" => MergeClause(srcs, islist, Plain(rows), labels, [r \in DOMAIN rows |-> 1], offc, <<>>) = ""
+\* every behaviour - with or without the deviation - is either right or exactly the named finding
+RightOrKnownFinding ==
+  pc = "done" => \/ MergeClause(srcs, islist, Plain(rows), labels, [r \in DOMAIN rows |-> 1], offc, <<>>) = ""
+                 \/ KF_IdsNotPermuted(srcs, krank, Plain(rows), labels, [r \in DOMAIN rows |-> 1], offc, <<>>)
 =============================================================================
